@@ -117,6 +117,8 @@ func checkC14(c *Ctx) {
 		c.Add("traces_validated_against_impl", 1)
 	}})
 	c.Set("message_cases", int64(nm))
+	// WithLazy arguments reach every entry also when several goroutines make the first use together
+	runLazyOnceV(c, "C14/", func(k string) bool { return k == "lazy/context" || k == "lazy/entry-missing" || k == "lazy/panic" }, []int{4, 5})
 	c.Set("exhaustive", true)
 }
 
